@@ -146,18 +146,22 @@ def StoreInv (I : Impl S) (Inv : S → List (Nat × Nat) → Prop) (st : Store S
 theorem storeInv_init (R : Refines I Inv rep) : StoreInv I Inv Store.init (fun _ => []) :=
   fun _ => R.new
 
-theorem classesLoop_ok (R : Refines I Inv rep) {us : List (Nat × Nat)} (ρ : Nat → Nat) :
+/-- the loop of `classes`, from any state predicate `P` that `find` preserves together with
+    every representative -/
+theorem classesLoop_ok {P : S → Prop}
+    (hfind : ∀ s, P s → ∀ a, ∃ s', I.find s a = .ok (s', rep s a) ∧ P s' ∧ ∀ z, rep s' z = rep s z)
+    (ρ : Nat → Nat) :
     ∀ (es : List Nat) (s : S) (cfr : List (Nat × Nat)) (cls : List (List Nat)),
-      Inv s us → (∀ z, rep s z = ρ z) → ClsInv ρ cfr cls →
+      P s → (∀ z, rep s z = ρ z) → ClsInv ρ cfr cls →
       ∃ s', classesLoop I es s cfr cls
           = .ok (s', es.foldl (fun acc e => insertFO (relOf ρ) e acc) cls) ∧
-        Inv s' us ∧ ∀ z, rep s' z = ρ z := by
+        P s' ∧ ∀ z, rep s' z = ρ z := by
   intro es
   induction es with
   | nil => intro s cfr cls inv hρ _; exact ⟨s, rfl, inv, hρ⟩
   | cons e es ih =>
     intro s cfr cls inv hρ cinv
-    obtain ⟨s1, hf, inv1, hrep⟩ := R.find inv e
+    obtain ⟨s1, hf, inv1, hrep⟩ := hfind s inv e
     have hρ1 : ∀ z, rep s1 z = ρ z := fun z => by rw [hrep, hρ]
     unfold classesLoop
     rw [hf, hρ e]
@@ -175,13 +179,21 @@ theorem classesLoop_ok (R : Refines I Inv rep) {us : List (Nat × Nat)} (ρ : Na
       simp only []
       exact ih s1 _ _ inv1 hρ1 cinv'
 
-/-- `classes` from a state satisfying the invariant: the Spec's first-occurrence grouping under
-    "same representative"; the state keeps the invariant and every representative -/
+/-- `classes` is the Spec's first-occurrence grouping under "same representative" -/
+theorem classes_ok' {P : S → Prop}
+    (hfind : ∀ s, P s → ∀ a, ∃ s', I.find s a = .ok (s', rep s a) ∧ P s' ∧ ∀ z, rep s' z = rep s z)
+    {s : S} (hs : P s) (es : List Nat) :
+    ∃ s', classes I s es = .ok (s', groupFO (relOf (rep s)) es) ∧ P s' ∧
+      ∀ z, rep s' z = rep s z :=
+  classesLoop_ok hfind (rep s) es s [] [] hs (fun _ => rfl) (clsInv_nil _)
+
+/-- `classes` from a state satisfying the invariant: the state keeps the invariant and every
+    representative -/
 theorem classes_ok (R : Refines I Inv rep) {us : List (Nat × Nat)} {s : S} (inv : Inv s us)
     (es : List Nat) :
     ∃ s', classes I s es = .ok (s', groupFO (relOf (rep s)) es) ∧ Inv s' us ∧
       ∀ z, rep s' z = rep s z :=
-  classesLoop_ok R (rep s) es s [] [] inv (fun _ => rfl) (clsInv_nil _)
+  classes_ok' (P := fun s => Inv s us) (fun _ hs a => R.find hs a) inv es
 
 /-- what an operation may answer -/
 def ObsOk (rep : S → Nat → Nat) (I : Impl S) (st : Store S) : Op → Option Obs → Prop
@@ -202,7 +214,7 @@ theorem step_spec (R : Refines I Inv rep) {st : Store S} {U : Nat → List (Nat 
     · intro j
       rw [Store.get_set]
       by_cases e : k = j
-      · subst e; simp only [unions1, if_pos rfl]; exact inv'
+      · subst e; simp only [unions1]; exact inv'
       · have e' : ¬ j = k := fun h => e h.symm
         simp only [unions1, if_neg e, if_neg e']; exact h j
     · intro j c hd
@@ -246,7 +258,7 @@ theorem step_spec (R : Refines I Inv rep) {st : Store S} {U : Nat → List (Nat 
     · intro l
       rw [Store.get_set]
       by_cases e : j = l
-      · subst e; simp only [unions1, if_pos rfl]; exact h i
+      · subst e; simp only [unions1]; exact h i
       · have e' : ¬ l = j := fun h => e h.symm
         simp only [unions1, if_neg e, if_neg e']; exact h l
     · intro l c hd
@@ -265,10 +277,16 @@ theorem run_ok (R : Refines I Inv rep) :
     intro st U h
     obtain ⟨st1, o, hs, inv1, _, _⟩ := step_spec R h op
     obtain ⟨st2, obs, hr, inv2⟩ := ih st1 _ inv1
-    refine ⟨st2, (match o with | some x => x :: obs | none => obs), ?_,
-      by rw [unions_cons]; exact inv2⟩
-    simp only [run]
-    rw [hs]; simp only []; rw [hr]
+    have inv2' : StoreInv I Inv st2 (unions (op :: ops) U) := by rw [unions_cons]; exact inv2
+    cases o with
+    | none =>
+      refine ⟨st2, obs, ?_, inv2'⟩
+      simp only [run]
+      rw [hs]; simp only []; rw [hr]
+    | some x =>
+      refine ⟨st2, x :: obs, ?_, inv2'⟩
+      simp only [run]
+      rw [hs]; simp only []; rw [hr]
 
 end contract
 
